@@ -130,3 +130,26 @@ Example c13_history_nonvacuous :
   option_map (fun a => (j_finalizer a, map tr_name (j_tasks a), j_deletion a)) (api_job w) = Some (true, ["j-aaaaaa-0"], Some 100) /\
   pod_pending w = [] /\ api_job w' = None /\ api_pods w' = [].
 Proof. vm_compute. repeat split; reflexivity. Qed.
+
+
+(** REFUTED on the faithful model (finding F4c): "the Job leaves the API only after its tasks"
+    is false while Pod events are still on their way to the cache.  The pass creates the Pod
+    and records it; the user deletes the Job; the Pod cache has not seen the Pod yet, so the
+    pass finds no Pod under the recorded name, drops the finalizer, and the Job is gone while
+    its Pod runs on, never deleted by the controller.  (With every Pod event delivered the
+    statement is the theorem c13_job_removed_after_tasks / c13_pod_cache_covers_api.)  The same
+    history is the corpus case F4c-finalizer-dropped-while-tasks-exist of the job stream. *)
+Theorem c13_job_removed_after_tasks_refuted :
+  exists cfg j0 now ops,
+    let w := jrun_world cfg (init_jworld j0 now) ops in
+    api_job w = None /\
+    map (fun p => (p_name p, p_deletion p, p_controlled p)) (api_pods w) = [("j-aaaaaa-0"%string, None, true)].
+Proof.
+  exists (mkCfg (Some 900) (Some 900) (Some 3600)),
+    (mkJob ["aaaaaa"%string] false AllSuccessful 2 0 false false None false None None false true None (Some 10)
+           [] 0 0 None (CWaiting WPendingCreation) PhStarting SWaiting), 100,
+    [JSync; JKubelet "j-aaaaaa-0" KSchedule; JKubelet "j-aaaaaa-0" KRun;
+     JDelete; JAdvanceJob 9; JSync; JAdvanceJob 9; JSync].
+  vm_compute. split; reflexivity.
+Qed.
+Print Assumptions c13_job_removed_after_tasks_refuted.
